@@ -956,6 +956,7 @@ def conc_hooks(park_built=(), park_sync=()):
         cls = fmm.RollbackFailureManager
         o_rec, o_sync, o_build = cls._recover, cls._synchronize_workflows, fmm.ProvenanceGraph.build_graph
         nrec = {}
+        wf_of = {}      # id(recovery workflow) -> failed job whose _recover created it (the workflows stay referenced by the requests)
 
         async def _recover(self, failed_job, failed_step):
             nrec[failed_job.name] = nrec.get(failed_job.name, 0) + 1
@@ -987,8 +988,23 @@ def conc_hooks(park_built=(), park_sync=()):
             dec = {}
             for rq in retry_requests:
                 dec[rq.name] = "attach" if await self.is_recovering(rq.name) else "rollback"
-            st.ev("sync", job=failed_job, decisions=dec)
-            return await o_sync(self, failed_job, job_tokens, mapper, retry_requests, workflow)
+            # which recovery (failed job) owns the workflow that is regenerating every job this one attaches to
+            wf_of[id(workflow)] = failed_job
+            owners = {rq.name: wf_of.get(id(rq.workflow)) for rq in retry_requests if dec[rq.name] == "attach"}
+            targets = {rq.name: rq.workflow for rq in retry_requests if dec[rq.name] == "attach"}
+            st.ev("sync", job=failed_job, decisions=dec, owners=owners)
+            try:
+                r = await o_sync(self, failed_job, job_tokens, mapper, retry_requests, workflow)
+            except BaseException as e:
+                st.ev("sync_end", job=failed_job, ok=False, err="%s: %s" % (type(e).__name__, str(e)[:120]))
+                raise
+            # the boundaries that now lead from the owners' workflows into this recovery workflow
+            links = {}
+            for name, wf in targets.items():
+                links[name] = sorted(pn for pn, port in (wf.ports.items() if wf is not None else ())
+                                     if any(getattr(bd.port, "workflow", None) is workflow for bd in getattr(port, "boundaries", ())))
+            st.ev("sync_end", job=failed_job, ok=True, links=links)
+            return r
 
         cls._recover, cls._synchronize_workflows, fmm.ProvenanceGraph.build_graph = _recover, _sync, build_graph
         ru.ProvenanceGraph.build_graph = build_graph
